@@ -237,6 +237,20 @@ func RunC02(e *core.Env) int {
 				"setup": core.Trunc(findCase(b, r.Scen).S.Files[findCase(b, r.Scen).S.Setup], 800)}, 3)
 		}
 	})
+	// functions of the other profiles as well (hooks, slices, error-heavy, notation-heavy, shapes)
+	nx := 60
+	if e.Tier == "thorough" {
+		nx = 800
+	}
+	for _, prof := range []string{"notate", "shapes", "errs", "hooks", "slices", "match"} {
+		runExecBatches(e, rep, prof, nx, 150, execmon.Job{NRandom: k, MutateHooks: prof == "hooks"}, func(b *Batch, eo *ExecOut) {
+			for id, infos := range eo.Infos {
+				for key, fi := range infos {
+					judgeC02(rep, fi, eo.Recs[id+"/"+key])
+				}
+			}
+		})
+	}
 	return rep.Finish()
 }
 
